@@ -16,4 +16,10 @@ def contracts():
         d = 1 if layout == "dense" else 2
         out.append(interp.offgrid_contract(ivp.Cfg(layout, "none", "filter", "ts0", q=1, d=d), N=2, k=1))
         out.append(interp.offgrid_contract(ivp.Cfg(layout, "dynamic", "fixedinterval", "ts0", q=1, d=d), N=2, k=0))
+    # premise of the off-grid contract (it re-discretises the prior with ``solution.output_scale``): the scale a solver
+    # reports is the one its posterior was calibrated with -- for the MLE solver that is decided only in
+    # ``userfriendly_output`` (home contracts shared with C04)
+    from contracts import calibration
+
+    out += [c for c in calibration.contracts() if "solver_mle" in c.name]
     return out
